@@ -41,8 +41,18 @@ def run(ck, F, E):
         b = get_fn(ck, F, fn)
         if b is None:
             continue
-        ck.require(not b.natural_loops(), "C09:ONE:%s:loop-free" % fn.split("::")[-1], "one statement per call",
-                   "%s has no loop" % fn.split("::")[-1], "%s contains a loop: a host call may now execute many statements" % fn, b.span,
+        # no loop around anything that executes a statement (a loop that only copies listing lines to the output is fine)
+        G0 = panics.CallGraph(F)
+        runners = set()
+        for blk in b.natural_loops().values():
+            for c in b.calls():
+                if c.bb in blk and c.callee in F.bodies:
+                    reach = G0.reachable([c.callee])
+                    if any(sfx(p, "StatementEvaluator::evaluate_statement") or sfx(p, "Interpreter::run_next_statement") for p in reach):
+                        runners.add(c.callee.split("::")[-1])
+        ck.require(not runners, "C09:ONE:%s:loop-free" % fn.split("::")[-1], "one statement per call",
+                   "%s has no loop around a statement-executing call" % fn.split("::")[-1],
+                   "%s contains a loop around %s: a host call may now execute many statements" % (fn, sorted(runners)), b.span,
                    nontrivial=False)
     ce = F.one("Interpreter::continue_evaluating")
     if ce is not None:
@@ -205,6 +215,13 @@ def run(ck, F, E):
                "goto_line_number", "return_to_last_gosub", "push_function_call_onto_stack_and_goto_it",
                "pop_function_call_off_stack_and_return_from_it", "next_line", "next_token", "accept_next_token", "try_next_token",
                "rewind_before_token", "discard_remaining_tokens"}
+    # reset_runtime_state (RUN / line edits) re-initialises the cursor as part of resetting everything; helpers of an
+    # allowed writer act on its behalf
+    from lib import allowed_via_callers
+    allowed |= {"reset_runtime_state"}
+    extra = [n for n in ws if n.split("::")[-1] not in allowed and
+             not allowed_via_callers(F, n, tuple("Program::" + a for a in allowed))]
+    names = sorted(set(names) - {n.split("::")[-1] for n in ws if n not in extra and n.split("::")[-1] not in allowed})
     ck.require(set(names) <= allowed, "C09:PROGRESS:location-writers", "loop progress",
                "Program.location is written only by cursor primitives and control-transfer helpers",
                "Program.location is also written by %s" % sorted(set(names) - allowed))
